@@ -1134,6 +1134,8 @@ class TT():
             torch.TT: the result
         """
 
+        if self.__is_ttm:
+            raise IncompatibleTypes('to_ttm() converts TT tensors; the object is already a TT matrix.')
         cores_new = [tn.reshape(
             c, (c.shape[0], c.shape[1], 1, c.shape[2])) for c in self.cores]
         return TT(cores_new)
